@@ -171,7 +171,11 @@ def h_stmt(rng, sid, names):
                 "for": [c, ["num", 0], hi]}
     if k < 0.75:
         a = rng.choice(ARRS)
-        sub = rng.choice([["num", 1], ["var", "only_sub"], ["var", "tmp_0"]])
+        sub = rng.choice([["num", 1], ["var", "only_sub"], ["var", "tmp_0"],
+                          # a call (or a conditional with a call in a branch) in the assignee's subscript
+                          ["call", "<func>slot", [rng.choice([["var", "nb"], ["num", 2]])], {}],
+                          ["if", ["cmp", ">", ["var", "nb"], ["num", 1]],
+                           ["call", "<func>slot", [["var", "nb"]], {}], ["num", 0]]])
         return {"k": "assign", "lhs": a, "sub": sub, "rhs": h_expr(rng, 2, names), "loops": [], "cond": cond,
                 "id": sid}
     if k < 0.9:
@@ -300,6 +304,8 @@ def features(tree):
         exprs = []
         if hasattr(s, "rhs"):
             exprs.append(s.rhs)
+            # (the subscript of a subscripted assignee is an expression like any other)
+            exprs += list(getattr(s, "assignee_subscript", ()) or ())
         exprs += list(getattr(s, "parameters", ())) + list(getattr(s, "kw_parameters", {}).values())
         if hasattr(s, "expression") and not hasattr(s, "rhs"):
             exprs.append(s.expression)
@@ -503,11 +509,30 @@ def check_tree(tree, valuations, rec, wit, only_pass=None):
                               f"original {a.external}, transformed {b.external}\n{s_out}", dict(w, valuation=vi))
                 break
             if sorted(map(repr, a.calls)) != sorted(map(repr, b.calls)):
-                extra = [c for c in b.calls if c not in a.calls]
-                missing = [c for c in a.calls if c not in b.calls]
+                # multiset difference (a call the original makes once and the rewritten phase twice is an extra call)
+                from collections import Counter
+                ca, cb_ = Counter(map(repr, a.calls)), Counter(map(repr, b.calls))
+                extra, missing = [], []
+                for c in b.calls:
+                    if cb_[repr(c)] > ca[repr(c)]:
+                        extra.append(c)
+                        cb_[repr(c)] -= 1
+                ca2, cb2 = Counter(map(repr, a.calls)), Counter(map(repr, b.calls))
+                for c in a.calls:
+                    if ca2[repr(c)] > cb2[repr(c)]:
+                        missing.append(c)
+                        ca2[repr(c)] -= 1
+                lazy_names = {f[3:] for f in feats if f.startswith(("br:", "sc:"))}
+                # (an extra call to a function that occurs in NO lazily evaluated position cannot have been hoisted
+                # out of one)
+                repeated = [c for c in extra if repr(c) in ca and c[0] not in lazy_names]
                 key = "+".join(sorted(feats & {"call-in-lazily-evaluated-position"})) or "plain"
                 mech = f"{pname}:external-calls-changed-on-{key}"
-                if key != "plain" and not missing:
+                if repeated and not missing:
+                    # the original makes this very call too, only less often: nothing was hoisted out of a position
+                    # that is not evaluated
+                    mech = f"{pname}:external-call-made-more-often"
+                elif key != "plain" and not missing:
                     mech = f"{pname}:" + lazy_key(feats, extra, pname=pname)
                 rec.violation(mech,
                               f"extra calls {extra[:3]}, missing calls {missing[:3]}\ninput:\n{s_in}output:\n{s_out}",
